@@ -25,6 +25,8 @@ def _switch_on(c, key, cond_rx):
 
 
 def run(c):
+    import r9
+    c.r9("C19")
     F = c.F
     ty = F.adts.get(M + "Type")
     if not ty or len(ty["variants"]) < 29:
